@@ -1763,6 +1763,26 @@ func runT9(p *an.Prog, r *an.Result) {
 				good = false
 			}
 		}
+		// what is held back goes out before anything new is buffered: every append is dominated by a flush. (A
+		// chunk kept across a write belongs to the text before an earlier tag; a later left hyphen would trim it.)
+		for _, one := range bw {
+			flushed := false
+			an.EachInstr(w, func(in ssa.Instruction) {
+				c, ok := in.(*ssa.Call)
+				if !ok || c == one {
+					return
+				}
+				cn := an.CallName(&c.Call)
+				isFlush := cn == "(*bytes.Buffer).WriteTo" || strings.HasSuffix(cn, ").Flush") && c.Call.StaticCallee() != nil && c.Call.StaticCallee().Pkg == w.Pkg
+				if isFlush && instrDominates(c, one) {
+					flushed = true
+				}
+			})
+			if !flushed {
+				good = false
+				r.Bad(an.FuncName(w), "buffers new output without flushing what is held back", one.Pos(), "a path reaches the append without a flush: text from before an earlier tag stays in the buffer, and the next left hyphen trims whitespace that is not next to it (x  {{ nil -}}  {{- nil }}y loses the blanks after x)")
+			}
+		}
 		// every return passes through the buffer write or is an error return
 		for _, in := range instrsOf(w) {
 			ret, ok := in.(*ssa.Return)
